@@ -280,14 +280,14 @@ fn diagnose(text: &str, layout: Layout, t: &T) -> Option<&'static str> {
     return Some("layout:two-comments-in-a-row-between-two-tokens");
   }
   // (1) `function` must be followed by `(` after white space only: a comment there is rejected
-  if matches!(layout, Layout::BlockComments | Layout::LineComments) && contains_function(t) {
+  if matches!(layout, Layout::BlockComments | Layout::LineComments | Layout::CommentShapes) && contains_function(t) {
     return Some("layout:comment-between-function-keyword-and-parenthesis");
   }
   // the every-white-space layout is diagnosed on its ordinary-space form
   let normalised: String = if matches!(layout, Layout::EveryWhiteSpace) { text.chars().map(|c| if crate::term::FEEL_WHITE_SPACE.contains(&c) { ' ' } else { c }).collect() } else { text.to_string() };
   // (4) NAME . NAME . NAME directly after `[` or `(` is taken for the start of an interval
   {
-    let plain = normalised.replace("/* c 1 + ( */", " ").replace("// c ) \"\n", " ");
+    let plain = strip_block_comments(&normalised).replace("// c ) \"\n", " ");
     let toks: Vec<&str> = plain.split_whitespace().collect();
     let compact: String = toks.join("");
     let bytes: Vec<char> = compact.chars().collect();
@@ -382,7 +382,10 @@ fn after_instance_type(text: &str) -> Option<(&str, usize)> {
     None => return Some(("", consumed)),
   };
   let rest = rest[of + 2..].trim_start();
-  let rest = rest.strip_prefix("/* c 1 + ( */").map(|r| r.trim_start()).unwrap_or(rest);
+  let rest = match rest.strip_prefix("/*").and_then(|r| r.find("*/").map(|e| &r[e + 2..])) {
+    Some(r) => r.trim_start(),
+    None => rest,
+  };
   let rest = rest.strip_prefix("// c ) \"\n").map(|r| r.trim_start()).unwrap_or(rest);
   for ty in ["number", "list<string>"] {
     if let Some(r) = rest.strip_prefix(ty) {
@@ -390,6 +393,26 @@ fn after_instance_type(text: &str) -> Option<(&str, usize)> {
     }
   }
   Some(("", consumed))
+}
+
+/// the text with every block comment replaced by a blank
+fn strip_block_comments(text: &str) -> String {
+  let mut out = String::new();
+  let mut rest = text;
+  while let Some(a) = rest.find("/*") {
+    out.push_str(&rest[..a]);
+    match rest[a + 2..].find("*/") {
+      Some(e) => {
+        out.push(' ');
+        rest = &rest[a + 2 + e + 2..];
+      }
+      None => {
+        rest = "";
+      }
+    }
+  }
+  out.push_str(rest);
+  out
 }
 
 fn callee_is_keyword_literal(t: &T) -> bool {
@@ -404,7 +427,7 @@ fn callee_is_keyword_literal(t: &T) -> bool {
 
 fn check_tree(run: &Run, label: &str, t: &T, names: &BTreeSet<String>, counters: &Counters) {
   let expected = to_ast(t);
-  let layouts = [Layout::Spaced, Layout::Compact, Layout::Double, Layout::NewlinesTabs, Layout::BlockComments, Layout::LineComments, Layout::EveryWhiteSpace, Layout::LongRuns, Layout::TwoComments];
+  let layouts = [Layout::Spaced, Layout::Compact, Layout::Double, Layout::NewlinesTabs, Layout::BlockComments, Layout::LineComments, Layout::EveryWhiteSpace, Layout::LongRuns, Layout::TwoComments, Layout::CommentShapes];
   for mode in [Mode::Full, Mode::Minimal] {
     for layout in layouts {
       let text = render(t, mode, layout);
@@ -741,7 +764,7 @@ pub fn run() {
   run.set("traces_validated_against_impl", json!(parses + lit_count + ut_count));
   run.set("evaluations", json!(parses + lit_count + ut_count));
   run.set("distinct_nontrivial", json!(distinct_texts.len()));
-  run.set("rule", json!("distinct minimal renderings of trees with at least one operator (depth-2: every constructor in every slot of every constructor; depth-3: every ordered triple along every slot of the outer and the middle constructor; sibling pairs: two slots of one constructor filled by every ordered pair; thorough adds depth-4 spines along the first / last slot); each is parsed in 2 parenthesisations x 9 layouts plus one text per needed parenthesis pair"));
+  run.set("rule", json!("distinct minimal renderings of trees with at least one operator (depth-2: every constructor in every slot of every constructor; depth-3: every ordered triple along every slot of the outer and the middle constructor; sibling pairs: two slots of one constructor filled by every ordered pair; thorough adds depth-4 spines along the first / last slot); each is parsed in 2 parenthesisations x 10 layouts plus one text per needed parenthesis pair"));
   run.set("exhaustive", json!(true));
   run.set("depth2_trees", json!(d2));
   run.set("depth3_spines", json!(d3));
